@@ -1063,85 +1063,140 @@ Proof.
     congruence.
 Qed.
 
+Lemma write_path_fixed wd title raw :
+  write_path cfg_fixed wd title = Some raw -> exists cl, raw = Nms cl /\ inside wd cl = true.
+Proof.
+  intro EW. unfold write_path in EW. cbn [fixA cfg_fixed] in EW.
+  match type of EW with (if inside wd ?c then _ else _) = _ => destruct (inside wd c) eqn:Ein; [|discriminate] end.
+  injection EW as <-. eexists. split; [reflexivity | exact Ein].
+Qed.
+
+(* ensureWriteDir of a directory below the working directory *)
+Lemma ensure_write_dir_below wd f rel rawdir f1 :
+  Inv wd f -> ensure_write_dir cfg_fixed wd f (wd ++ rel) rawdir = Some f1 ->
+  Keeps wd f f1 /\ RealD f1 [] (wd ++ rel).
+Proof.
+  intros I H. unfold ensure_write_dir in H. cbn [fixN cfg_fixed] in H.
+  assert (SP : strip_prefix wd (wd ++ rel) = Some rel) by now apply strip_prefix_spec.
+  rewrite SP in H. pose proof (RealD_inv _ _ I) as HRwd.
+  destruct (mkdir_all f (Nms wd) 511) as [f0|] eqn:M0; [|discriminate].
+  unfold mkdir_all in M0. apply (mkdir_prefixes_noop f 511 wd [] f0 HRwd) in M0. subst f0.
+  destruct (mkdir_real_lex wd 511 rel wd _ f1 I (inside_refl wd) HRwd H) as (K1 & R1 & _).
+  split; assumption.
+Qed.
+
+Lemma push_blob_keeps wd s title w good s' ok :
+  Inv wd (st_fs s) ->
+  push_blob cfg_fixed wd s title w good = (s', ok) ->
+  Keeps wd (st_fs s) (st_fs s').
+Proof.
+  intros I H. unfold push_blob in H.
+  destruct (existsb (str_eqb title) (st_names s)).
+  { injection H as <- _. now apply Keeps_refl. }
+  destruct (write_path cfg_fixed wd title) as [raw|] eqn:EW.
+  2:{ injection H as <- _. now apply Keeps_refl. }
+  destruct (write_path_fixed _ _ _ EW) as (cl & -> & Hcl).
+  cbn [fixW cfg_fixed] in H.
+  pose proof (RealD_inv _ _ I) as HRwd.
+  rewrite removelast_Nms, !clean_abs_names in H.
+  destruct (strip_prefix wd (removelast cl)) as [rel|] eqn:SP.
+  - apply strip_prefix_spec in SP. rewrite SP in H.
+    destruct (ensure_write_dir cfg_fixed wd (st_fs s) (wd ++ rel) (Nms (wd ++ rel))) as [f1|] eqn:M.
+    2:{ injection H as <- _. now apply Keeps_refl. }
+    destruct (ensure_write_dir_below wd _ rel _ f1 I M) as (K1 & R1).
+    rewrite <- SP in R1.
+    pose proof (lexreal_of_parent _ _ R1) as HL1.
+    destruct (path_eqb cl wd) eqn:Hclwd; cbn [negb andb] in H.
+    { (* the title denotes the working directory itself: os.Create fails on the directory *)
+      apply path_eqb_spec in Hclwd. subst cl.
+      rewrite (write_at_real f1 wd w 438 (RealD_inv _ _ (proj1 K1))) in H. injection H as <- _. exact K1. }
+    destruct (unlink_if_symlink f1 cl) as [f1'|] eqn:U.
+    2:{ injection H as <- _. exact K1. }
+    destruct (unlink_if_lex wd cl f1 f1' (proj1 K1) Hcl HL1 U) as (K2 & O2 & N2).
+    assert (K12 : Keeps wd (st_fs s) f1') by (eapply Keeps_trans; eauto).
+    assert (HL2 : lexreal f1' [] cl = true) by (rewrite (lexreal_only_at _ _ _ O2); exact HL1).
+    destruct (write_at f1' (Nms cl) w 438) as [f2|] eqn:Wr.
+    + destruct (write_at_lex wd cl w 438 f1' f2 (proj1 K2) Hcl HL2 N2 Wr) as (K3 & O3 & (i3 & L3)).
+      assert (K13 : Keeps wd (st_fs s) f2) by (eapply Keeps_trans; eauto).
+      destruct good; [injection H as <- _; exact K13|].
+      destruct (remove_at f2 cl) as [f3|] eqn:Rm; injection H as <- _; [|exact K13]. simpl.
+      assert (Hne : cl <> []).
+      { intros ->. rewrite (write_at_real f1' [] w 438) in Wr; [discriminate|].
+        intros q r E Hq. destruct q; [contradiction | discriminate]. }
+      assert (Hs : sinside wd cl) by (eapply inside_sinside; [exact (proj1 K3) | exact Hcl | exact Hne | rewrite L3; discriminate]).
+      assert (HL3 : lexreal f2 [] cl = true) by (rewrite (lexreal_only_at _ _ _ O3); exact HL2).
+      destruct (remove_at_lex wd cl f2 f3 (proj1 K3) Hs HL3 Rm) as (_ & K4 & _).
+      eapply Keeps_trans; eauto.
+    + injection H as <- _. exact K12.
+  - destruct (parent_outside wd cl Hcl SP) as [-> Hwd].
+    assert (HRp : RealD (st_fs s) [] (removelast wd)).
+    { apply (RealD_prefix _ (removelast wd) [last wd []]). rewrite <- app_removelast_last by exact Hwd. exact HRwd. }
+    unfold ensure_write_dir in H. cbn [fixN cfg_fixed] in H. rewrite SP in H.
+    destruct (mkdir_all (st_fs s) (Nms (removelast wd)) 511) as [f1|] eqn:M.
+    2:{ injection H as <- _. now apply Keeps_refl. }
+    unfold mkdir_all in M.
+    apply (mkdir_prefixes_noop (st_fs s) 511 (removelast wd) [] f1 HRp) in M. subst f1.
+    rewrite path_eqb_refl in H. cbn [negb andb] in H.
+    rewrite (write_at_real _ wd w 438 HRwd) in H. injection H as <- _. now apply Keeps_refl.
+Qed.
+
+Lemma push_dir_keeps wd pres cwd s title ts es s' ok :
+  Inv wd (st_fs s) ->
+  push_dir cfg_fixed pres wd cwd s title ts es = (s', ok) ->
+  Keeps wd (st_fs s) (st_fs s').
+Proof.
+  intros I H. unfold push_dir in H.
+  destruct (existsb (str_eqb title) (st_names s)).
+  { injection H as <- _. now apply Keeps_refl. }
+  destruct (write_path cfg_fixed wd title) as [raw|] eqn:EW.
+  2:{ injection H as <- _. now apply Keeps_refl. }
+  destruct (write_path_fixed _ _ _ EW) as (cl & -> & Hcl).
+  rewrite clean_abs_names in H.
+  destruct (strip_prefix wd cl) as [rel|] eqn:SP.
+  2:{ unfold inside in Hcl. rewrite SP in Hcl. discriminate. }
+  apply strip_prefix_spec in SP. subst cl.
+  destruct (ensure_write_dir cfg_fixed wd (st_fs s) (wd ++ rel) (Nms (wd ++ rel))) as [f1|] eqn:M.
+  2:{ injection H as <- _. now apply Keeps_refl. }
+  destruct (ensure_write_dir_below wd _ rel _ f1 I M) as (K1 & R1).
+  destruct (extract cfg_fixed pres cwd (wd ++ rel) title f1 es ts []) as [f2 ok2] eqn:EX.
+  injection H as <- _. simpl.
+  eapply Keeps_trans; [exact K1|].
+  apply (extract_keeps wd pres cwd (wd ++ rel) title es f1 f2 ok2 ts [] (proj1 K1) Hcl R1 (Forall_nil _) (Forall_nil _) EX).
+Qed.
+
+(* restoreDuplicates: every restored layer is an ordinary named-blob push in the current tree *)
+Lemma restore_layers_keeps wd : forall layers s s' ok,
+  Inv wd (st_fs s) ->
+  restore_layers cfg_fixed wd s layers = (s', ok) ->
+  Keeps wd (st_fs s) (st_fs s').
+Proof.
+  induction layers as [|[t c] r IH]; intros s s' ok I H.
+  - injection H as <- _. now apply Keeps_refl.
+  - cbn [restore_layers] in H. destruct t as [|t0 tt]; [now apply (IH s s' ok)|].
+    destruct (existsb (str_eqb (t0 :: tt)) (st_names s)); [now apply (IH s s' ok)|].
+    destruct (fetch s c) as [| |c']; [now apply (IH s s' ok) | injection H as <- _; now apply Keeps_refl |].
+    destruct (push_blob cfg_fixed wd s (t0 :: tt) c' ((c' =? c)%N && negb (c =? 0)%N)) as [s1 ok1] eqn:P.
+    pose proof (push_blob_keeps _ _ _ _ _ _ _ I P) as K1.
+    destruct ok1.
+    + eapply Keeps_trans; [exact K1|]. apply (IH s1 s' ok (proj1 K1) H).
+    + injection H as <- _. exact K1.
+Qed.
+
 Lemma push_keeps wd pres cwd s o s' ok :
   Inv wd (st_fs s) ->
   push cfg_fixed pres wd cwd s o = (s', ok) ->
   Keeps wd (st_fs s) (st_fs s').
 Proof.
-  intros I H. unfold push in H.
-  destruct (push_title o) as [|t0 tt] eqn:ET.
-  { destruct o as [t c|t ts es]; [|injection H as <- _; now apply Keeps_refl].
-    destruct (existsb (str_eqb [0%N; c]) (st_names s)); injection H as <- _; now apply Keeps_refl. }
-  rewrite <- ET in H.
-  destruct (existsb (str_eqb (push_title o)) (st_names s)).
-  { injection H as <- _. now apply Keeps_refl. }
-  destruct (write_path cfg_fixed wd (push_title o)) as [raw|] eqn:EW.
-  2:{ injection H as <- _. now apply Keeps_refl. }
-  assert (Hraw : exists cl, raw = Nms cl /\ inside wd cl = true).
-  { unfold write_path in EW. cbn [fixA cfg_fixed] in EW.
-    match type of EW with (if inside wd ?c then _ else _) = _ => destruct (inside wd c) eqn:Ein; [|discriminate] end.
-    injection EW as <-. eexists. split; [reflexivity | exact Ein]. }
-  destruct Hraw as (cl & -> & Hcl).
-  cbn [fixN fixW cfg_fixed] in H.
-  pose proof (RealD_inv _ _ I) as HRwd.
-  destruct o as [t c|t ts es]; cbn [push_title] in *.
-  - rewrite removelast_Nms, !clean_abs_names in H.
-    destruct (strip_prefix wd (removelast cl)) as [rel|] eqn:SP.
-    + apply strip_prefix_spec in SP.
-      destruct (mkdir_all (st_fs s) (Nms wd) 511) as [f0|] eqn:M0.
-      2:{ injection H as <- _. now apply Keeps_refl. }
-      unfold mkdir_all in M0. apply (mkdir_prefixes_noop (st_fs s) 511 wd [] f0 HRwd) in M0. subst f0.
-      destruct (mkdir_real (st_fs s) wd rel 511) as [f1|] eqn:M.
-      2:{ injection H as <- _. now apply Keeps_refl. }
-      destruct (mkdir_real_lex wd 511 rel wd _ f1 I (inside_refl wd) HRwd M) as (K1 & R1 & _).
-      rewrite <- SP in R1.
-      pose proof (lexreal_of_parent _ _ R1) as HL1.
-      destruct (path_eqb cl wd) eqn:Hclwd; cbn [negb andb] in H.
-      { (* the title denotes the working directory itself: os.Create fails on the directory *)
-        apply path_eqb_spec in Hclwd. subst cl.
-        rewrite (write_at_real f1 wd c 438 (RealD_inv _ _ (proj1 K1))) in H. injection H as <- _. exact K1. }
-      destruct (unlink_if_symlink f1 cl) as [f1'|] eqn:U.
-      2:{ injection H as <- _. exact K1. }
-      destruct (unlink_if_lex wd cl f1 f1' (proj1 K1) Hcl HL1 U) as (K2 & O2 & N2).
-      assert (K12 : Keeps wd (st_fs s) f1') by (eapply Keeps_trans; eauto).
-      assert (HL2 : lexreal f1' [] cl = true) by (rewrite (lexreal_only_at _ _ _ O2); exact HL1).
-      destruct (write_at f1' (Nms cl) c 438) as [f2|] eqn:Wr.
-      * destruct (write_at_lex wd cl c 438 f1' f2 (proj1 K2) Hcl HL2 N2 Wr) as (K3 & O3 & (i3 & L3)).
-        assert (K13 : Keeps wd (st_fs s) f2) by (eapply Keeps_trans; eauto).
-        destruct c as [|cp]; [|injection H as <- _; exact K13].
-        destruct (remove_at f2 cl) as [f3|] eqn:Rm; injection H as <- _; [|exact K13]. simpl.
-        assert (Hne : cl <> []).
-        { intros ->. rewrite (write_at_real f1' [] 0%N 438) in Wr; [discriminate|].
-          intros q r E Hq. destruct q; [contradiction | discriminate]. }
-        assert (Hs : sinside wd cl) by (eapply inside_sinside; [exact (proj1 K3) | exact Hcl | exact Hne | rewrite L3; discriminate]).
-        assert (HL3 : lexreal f2 [] cl = true) by (rewrite (lexreal_only_at _ _ _ O3); exact HL2).
-        destruct (remove_at_lex wd cl f2 f3 (proj1 K3) Hs HL3 Rm) as (_ & K4 & _).
-        eapply Keeps_trans; eauto.
-      * injection H as <- _. exact K12.
-    + destruct (parent_outside wd cl Hcl SP) as [-> Hwd].
-      assert (HRp : RealD (st_fs s) [] (removelast wd)).
-      { apply (RealD_prefix _ (removelast wd) [last wd []]). rewrite <- app_removelast_last by exact Hwd. exact HRwd. }
-      destruct (mkdir_all (st_fs s) (Nms (removelast wd)) 511) as [f1|] eqn:M.
-      2:{ injection H as <- _. now apply Keeps_refl. }
-      unfold mkdir_all in M.
-      apply (mkdir_prefixes_noop (st_fs s) 511 (removelast wd) [] f1 HRp) in M. subst f1.
-      rewrite path_eqb_refl in H. cbn [negb andb] in H.
-      rewrite (write_at_real _ wd c 438 HRwd) in H. injection H as <- _. now apply Keeps_refl.
-  - rewrite clean_abs_names in H.
-    destruct (strip_prefix wd cl) as [rel|] eqn:SP.
-    2:{ unfold inside in Hcl. rewrite SP in Hcl. discriminate. }
-    apply strip_prefix_spec in SP.
-    destruct (mkdir_all (st_fs s) (Nms wd) 511) as [f0|] eqn:M0.
-    2:{ injection H as <- _. now apply Keeps_refl. }
-    unfold mkdir_all in M0. apply (mkdir_prefixes_noop (st_fs s) 511 wd [] f0 HRwd) in M0. subst f0.
-    destruct (mkdir_real (st_fs s) wd rel 511) as [f1|] eqn:M.
-    2:{ injection H as <- _. now apply Keeps_refl. }
-    destruct (mkdir_real_lex wd 511 rel wd _ f1 I (inside_refl wd) HRwd M) as (K1 & R1 & _).
-    rewrite <- SP in R1.
-    destruct (extract cfg_fixed pres cwd cl t f1 es ts []) as [f2 ok2] eqn:EX.
-    injection H as <- _. simpl.
-    eapply Keeps_trans; [exact K1|].
-    apply (extract_keeps wd pres cwd cl t es f1 f2 ok2 ts [] (proj1 K1) Hcl R1 (Forall_nil _) (Forall_nil _) EX).
+  intros I H. unfold push in H. destruct o as [t c|t ts es|layers].
+  - destruct t as [|t0 tt].
+    + destruct ((c =? 0)%N || existsb (str_eqb [0%N; c]) (st_names s)); injection H as <- _; now apply Keeps_refl.
+    + eapply push_blob_keeps; eauto.
+  - destruct t as [|t0 tt].
+    + injection H as <- _. now apply Keeps_refl.
+    + eapply push_dir_keeps; eauto.
+  - destruct (existsb (str_eqb (manifest_marker layers)) (st_names s)).
+    + injection H as <- _. now apply Keeps_refl.
+    + apply (restore_layers_keeps wd layers (mkStore (st_fs s) (manifest_marker layers :: st_names s) (st_d2p s)) s' ok I H).
 Qed.
 
 Lemma pushes_keeps wd pres cwd : forall os s s' oks,
@@ -1180,10 +1235,14 @@ Lemma push_outside_title g pres wd cwd s o :
   inside wd (lex_loc wd (push_title o)) = false -> push_title o <> [] ->
   push g pres wd cwd s o = (s, false).
 Proof.
-  intros H Hne. unfold push. destruct (push_title o) as [|t0 tt] eqn:ET; [contradiction|].
-  rewrite <- ET in *. destruct (existsb (str_eqb (push_title o)) (st_names s)); [reflexivity|].
-  destruct (write_path g wd (push_title o)) as [raw|] eqn:EW; [|reflexivity].
-  apply write_path_lex in EW as [E _]. congruence.
+  intros H Hne. unfold push. destruct o as [t c|t ts es|layers]; cbn [push_title] in *; try contradiction;
+    (destruct t as [|t0 tt]; [contradiction|]).
+  - unfold push_blob. destruct (existsb (str_eqb (t0 :: tt)) (st_names s)); [reflexivity|].
+    destruct (write_path g wd (t0 :: tt)) as [raw|] eqn:EW; [|reflexivity].
+    apply write_path_lex in EW as [E _]. congruence.
+  - unfold push_dir. destruct (existsb (str_eqb (t0 :: tt)) (st_names s)); [reflexivity|].
+    destruct (write_path g wd (t0 :: tt)) as [raw|] eqn:EW; [|reflexivity].
+    apply write_path_lex in EW as [E _]. congruence.
 Qed.
 
 (* an accepted entry name denotes a location below the unpack directory *)
@@ -1256,7 +1315,7 @@ Proof.
 Qed.
 
 Definition run0 (g : cfg) (os : list pushop) : fsys * list bool :=
-  let '(s, oks) := pushes g false wd0 cwd0 (mkStore fs0 []) os in (st_fs s, oks).
+  let '(s, oks) := pushes g false wd0 cwd0 (mkStore fs0 [] []) os in (st_fs s, oks).
 
 Definition escapes (g : cfg) : Prop :=
   exists os p, inside wd0 p = false /\ view_at (fst (run0 g os)) p <> view_at fs0 p.
@@ -1332,8 +1391,8 @@ Lemma attacks_confined_fixed :
   forall p, inside wd0 p = false -> view_at (fst (run0 cfg_fixed os)) p = view_at fs0 p.
 Proof.
   intros os Hin p Hp. unfold run0.
-  destruct (pushes cfg_fixed false wd0 cwd0 (mkStore fs0 []) os) as [s oks] eqn:E. simpl.
-  apply (proj2 (pushes_keeps wd0 false cwd0 os (mkStore fs0 []) s oks inv_fs0 E) p Hp).
+  destruct (pushes cfg_fixed false wd0 cwd0 (mkStore fs0 [] []) os) as [s oks] eqn:E. simpl.
+  apply (proj2 (pushes_keeps wd0 false cwd0 os (mkStore fs0 [] []) s oks inv_fs0 E) p Hp).
 Qed.
 
 Lemma push_outside_entry g pres wd cwd s title ts es1 e es2 :
@@ -1341,12 +1400,12 @@ Lemma push_outside_entry g pres wd cwd s title ts es1 e es2 :
   inside wd (lex_loc wd (entry_name e)) = false ->
   snd (push g pres wd cwd s (PDir title ts (es1 ++ e :: es2))) = false.
 Proof.
-  intros Hne He. unfold push. cbn [push_title].
-  destruct title as [|t0 tt] eqn:ET; [contradiction|]. rewrite <- ET in *.
+  intros Hne He. unfold push. destruct title as [|t0 tt] eqn:ET; [contradiction|]. rewrite <- ET in *.
+  unfold push_dir.
   destruct (existsb (str_eqb title) (st_names s)); [reflexivity|].
   destruct (write_path g wd title) as [raw|] eqn:EW; [|reflexivity].
   apply write_path_lex in EW as [Hin ->].
-  match goal with |- snd (match ?m with Some _ => _ | None => _ end) = _ => destruct m as [f1|] end; [|reflexivity].
+  destruct (ensure_write_dir g wd (st_fs s) (lex_loc wd title) raw) as [f1|]; [|reflexivity].
   pose proof (extract_stops g pres cwd (lex_loc wd title) title e es2 es1 f1 ts []
                 (fun f0 => entry_outside_rejected g pres wd cwd title f0 e Hin He)) as Hs.
   destruct (extract g pres cwd (lex_loc wd title) title f1 (es1 ++ e :: es2) ts []) as [f2 ok]. simpl in *. exact Hs.
@@ -1395,12 +1454,12 @@ Qed.
 Definition os_replace_wd : list pushop := [PDir (b ".") [] [ESym (b ".") (b "w/x")]].
 
 Lemma refuted_replace_wd :
-  lookup (st_fs (fst (pushes (mkCfg true true false true true true) false wd0 cwd0 (mkStore fs1 []) os_replace_wd))) wd0
+  lookup (st_fs (fst (pushes (mkCfg true true false true true true) false wd0 cwd0 (mkStore fs1 [] []) os_replace_wd))) wd0
   <> Some NDir.
 Proof. vm_compute. discriminate. Qed.
 
 Lemma replace_wd_fixed :
-  pushes cfg_fixed false wd0 cwd0 (mkStore fs1 []) os_replace_wd = (mkStore fs1 [], [false]).
+  pushes cfg_fixed false wd0 cwd0 (mkStore fs1 [] []) os_replace_wd = (mkStore fs1 [] [], [false]).
 Proof. vm_compute. reflexivity. Qed.
 
 (* a directory entry on top of a link, with PreservePermissions: the recorded mode is applied after
@@ -1410,8 +1469,8 @@ Definition os_remode : list pushop :=
                  ESym (b "t/l") (b "a/b/s/../.."); EDir (b "t/e") 448%N; ESym (b "t/e") (b "a/b/s/../..")]].
 
 Lemma remode_skips_links :
-  snd (fst (pushes cfg_fixed true wd0 cwd0 (mkStore fs0 []) os_remode), snd (pushes cfg_fixed true wd0 cwd0 (mkStore fs0 []) os_remode)) = [true] /\
-  view_at (st_fs (fst (pushes cfg_fixed true wd0 cwd0 (mkStore fs0 []) os_remode))) [b "r"] = view_at fs0 [b "r"].
+  snd (fst (pushes cfg_fixed true wd0 cwd0 (mkStore fs0 [] []) os_remode), snd (pushes cfg_fixed true wd0 cwd0 (mkStore fs0 [] []) os_remode)) = [true] /\
+  view_at (st_fs (fst (pushes cfg_fixed true wd0 cwd0 (mkStore fs0 [] []) os_remode))) [b "r"] = view_at fs0 [b "r"].
 Proof. split; vm_compute; reflexivity. Qed.
 
 
@@ -1519,7 +1578,53 @@ Definition fs2 : fsys :=
 
 Lemma refuted_shared_inode :
   inside wd0 [b "victim"] = false /\
-  snd (pushes cfg_fixed false wd0 cwd0 (mkStore fs2 []) [PBlob (b "old") 7%N]) = [true] /\
-  view_at (st_fs (fst (pushes cfg_fixed false wd0 cwd0 (mkStore fs2 []) [PBlob (b "old") 7%N]))) [b "victim"]
+  snd (pushes cfg_fixed false wd0 cwd0 (mkStore fs2 [] []) [PBlob (b "old") 7%N]) = [true] /\
+  view_at (st_fs (fst (pushes cfg_fixed false wd0 cwd0 (mkStore fs2 [] []) [PBlob (b "old") 7%N]))) [b "victim"]
   <> view_at fs2 [b "victim"].
 Proof. split; [vm_compute; reflexivity|]. split; [vm_compute; reflexivity | vm_compute; discriminate]. Qed.
+
+(* ---------- manifests ---------- *)
+
+(* a layer whose title lexically resolves outside, and whose content the store holds, ends the push
+   of the manifest with an error at that layer, nothing written for it *)
+Lemma manifest_outside_layer_rejected g wd s t c c' r :
+  t <> [] -> existsb (str_eqb t) (st_names s) = false -> fetch s c = FSome c' ->
+  inside wd (lex_loc wd t) = false ->
+  restore_layers g wd s ((t, c) :: r) = (s, false).
+Proof.
+  intros Hne Hex Hf Ho. cbn [restore_layers]. destruct t as [|t0 tt]; [contradiction|].
+  rewrite Hex, Hf. unfold push_blob. rewrite Hex.
+  destruct (write_path g wd (t0 :: tt)) as [raw|] eqn:EW; [|reflexivity].
+  apply write_path_lex in EW as [E _]. congruence.
+Qed.
+
+Definition os_manifest : list pushop :=
+  [PBlob [] 41%N; PBlob (b "n1") 51%N;
+   PManifest [(b "second", 41%N); (b "m/third", 51%N); (b "absent", 43%N); (b "n1", 51%N)];
+   PBlob (b "n1b") 52%N;
+   PManifest [(b "../victim", 41%N)];
+   PManifest [(b "x", 52%N); (b "/victim", 51%N); (b "never", 41%N)]].
+
+Lemma manifest_ok :
+  snd (run0 cfg_fixed os_manifest) = [true; true; true; true; false; false] /\
+  view_at (fst (run0 cfg_fixed os_manifest)) [b "r"; b "w"; b "second"] = VFile (enc 41 420) 0%N /\
+  view_at (fst (run0 cfg_fixed os_manifest)) [b "r"; b "w"; b "m"; b "third"] = VFile (enc 51 420) 0%N /\
+  view_at (fst (run0 cfg_fixed os_manifest)) [b "r"; b "w"; b "absent"] = VNone /\
+  view_at (fst (run0 cfg_fixed os_manifest)) [b "r"; b "w"; b "x"] = VFile (enc 52 420) 0%N /\
+  view_at (fst (run0 cfg_fixed os_manifest)) [b "r"; b "w"; b "never"] = VNone /\
+  view_at (fst (run0 cfg_fixed os_manifest)) [b "victim"] = view_at fs0 [b "victim"].
+Proof. vm_compute. repeat split. Qed.
+
+(* a layer restored from a named file whose content was replaced since: the copy fails verification,
+   the partially written file is removed and the push of the manifest fails *)
+Definition os_manifest_stale : list pushop :=
+  [PBlob (b "n1") 51%N;
+   PDir (b ".") [] [EHard (b "./h") (b "n1"); EReg (b "./h") 54%N 420%N];
+   PManifest [(b "copy", 51%N); (b "later", 51%N)]].
+
+Lemma manifest_stale :
+  snd (run0 cfg_fixed os_manifest_stale) = [true; true; false] /\
+  view_at (fst (run0 cfg_fixed os_manifest_stale)) [b "r"; b "w"; b "n1"] = VFile (enc 54 420) 0%N /\
+  view_at (fst (run0 cfg_fixed os_manifest_stale)) [b "r"; b "w"; b "copy"] = VNone /\
+  view_at (fst (run0 cfg_fixed os_manifest_stale)) [b "r"; b "w"; b "later"] = VNone.
+Proof. vm_compute. repeat split. Qed.
